@@ -109,22 +109,31 @@ def line_of(i, line):
 def P(p):
     return "(mkP %d %d %d)" % (p["Line"], p["Col"], p["Off"])
 
-used = {}
+def esc(bs):
+    out = []
+    for c in bs:
+        if 32 <= c < 127 and c not in (34, 92):
+            out.append(chr(c))
+        else:
+            out.append("\\%02x" % c)
+    return "".join(out)
+
 dcases, fcases = {}, {}          # file index -> list of (global index, text)
-n_exempt = 0
+n_exempt = n_related_external = 0
 for i, d in enumerate(diags):
     if d["Exempt"]:
         n_exempt += 1
         continue
     if d["File"] < 0:
-        if d["Kind"] == "related" and d["Pos"]["Line"] == 0:
-            continue                    # related information without position: nothing to point at
+        if d["Kind"] == "related":
+            n_related_external += 1     # related information may point into other packages; nothing to validate against
+            continue
         ck.violation("pos-outside-package:%s" % d["Check"],
-                     "%s: %s position %s:%d:%d is not in a Go file of the analysed package %s" % (d["Check"], d["Kind"], d["PosFile"], d["Pos"]["Line"], d["Pos"]["Col"], d["Pkg"]),
+                     "%s: position %s:%d:%d is not in a Go file of the analysed package %s" % (d["Check"], d["PosFile"], d["Pos"]["Line"], d["Pos"]["Col"], d["Pkg"]),
                      {"diag": d})
         continue
     end = "None" if not d["HasEnd"] else "(Some (%s, %s))" % (coq_bool(d["EndSame"]), P(d["End"]))
-    dcases.setdefault(d["File"], []).append((i, "mkD %%d%%%%nat %s %s" % (P(d["Pos"]), end)))
+    dcases.setdefault(d["File"], []).append((i, "mkD 0%%nat %s %s" % (P(d["Pos"]), end)))
 for i, f in enumerate(fixes):
     if f["Exempt"]:
         n_exempt += 1
@@ -133,7 +142,7 @@ for i, f in enumerate(fixes):
         ck.violation("fix-edits-not-one-file:%s" % f["Check"], "%s: the edits of fix %r do not lie in one file of the analysed package" % (f["Check"], f["FixMsg"]), {"fix": f})
         continue
     es = coq_list(["mkE %s %s \"%s\"" % (P(e["Start"]), P(e["End"]), e["NewHex"]) for e in f["Edits"]])
-    fcases.setdefault(f["File"], []).append((i, "mkF %%d%%%%nat true %s %d \"%s\" %d" % (es, f["Prefix"], f["MiddleHex"], f["Suffix"])))
+    fcases.setdefault(f["File"], []).append((i, "mkF 0%%nat true %s %d \"%s\" %d" % (es, f["Prefix"], f["MiddleHex"], f["Suffix"])))
 
 need = sorted(set(dcases) | set(fcases))
 NSHARD = 16
@@ -142,7 +151,7 @@ load = [0] * NSHARD
 for fi in sorted(need, key=lambda i: -len(files[i]["Hex"])):
     k = load.index(min(load))
     shards[k].append(fi)
-    load[k] += (len(files[fi]["Hex"]) // 2) * (2 + len(dcases.get(fi, [])) + 3 * len(fcases.get(fi, [])))
+    load[k] += (len(files[fi]["Hex"]) // 2) * (8 + len(dcases.get(fi, [])) + 3 * len(fcases.get(fi, [])))
 texts, index = {}, {}
 for k, sh_files in enumerate(shards):
     if not sh_files:
@@ -150,23 +159,27 @@ for k, sh_files in enumerate(shards):
     lines = ["From Coq Require Import List NArith String. Import ListNotations.",
              "Require Import Verif.Model.C16 Verif.Model.C16_Check.",
              "Local Open Scope string_scope. Local Open Scope N_scope."]
-    ds, fs = [], []
+    idx = []
     for local, fi in enumerate(sh_files):
-        lines.append("Definition f%d : file := Eval vm_compute in unhex \"%s\"." % (local, files[fi]["Hex"]))
-        for gi, t in dcases.get(fi, []):
-            ds.append((gi, t % local))
-        for gi, t in fcases.get(fi, []):
-            fs.append((gi, t % local))
-    lines.append("Definition files : list file := %s." % coq_list(["f%d" % i for i in range(len(sh_files))]))
-    lines.append("Definition ds : list dcase := %s." % coq_list([t for _, t in ds]))
-    lines.append("Definition fs : list fcase := %s." % coq_list([t for _, t in fs]))
-    for nm, fn, arg in [("DV", "diag_violations", "ds"), ("DM", "diag_mismatches", "ds"), ("FV", "fix_violations", "fs"), ("FM", "fix_mismatches", "fs")]:
-        lines.append("Definition %s := Eval vm_compute in %s files %s." % (nm, fn, arg))
-        lines.append("Print %s." % nm)
+        ds, fs = dcases.get(fi, []), fcases.get(fi, [])
+        lines.append("Definition R%d := Eval vm_compute in check_file (unesc \"%s\") %s %s." % (
+            local, esc(bytes.fromhex(files[fi]["Hex"])), coq_list([t for _, t in ds]), coq_list([t for _, t in fs])))
+        lines.append("Print R%d." % local)
+        idx.append(([gi for gi, _ in ds], [gi for gi, _ in fs]))
     texts["shard%02d" % k] = "\n".join(lines) + "\n"
-    index["shard%02d" % k] = ([gi for gi, _ in ds], [gi for gi, _ in fs])
-res = ck.coq_cases_parallel(texts, timeout=2400, jobs=16)
-ck.log("model evaluation done (%d shards)" % len(texts))
+    index["shard%02d" % k] = idx
+
+def coqc_big(name, text, timeout=3000):
+    path = os.path.join(ck.casedir, name + ".v")
+    with open(path, "w") as fh:
+        fh.write(text)
+    # long literals and deep recursion: raise the stack limit for this coqc
+    return sh("ulimit -s unlimited 2>/dev/null || ulimit -s 1000000 2>/dev/null; exec coqc -R '%s' Verif '%s'" % (COQ, path), cwd=ck.casedir, timeout=timeout)
+
+with ThreadPoolExecutor(max_workers=16) as ex:
+    futs = {n: ex.submit(coqc_big, n, t) for n, t in texts.items()}
+    res = {n: f.result() for n, f in futs.items()}
+ck.log("model evaluation done (%d shards, %d files)" % (len(texts), len(need)))
 
 def parse_numbered(val):
     out = []
@@ -174,36 +187,65 @@ def parse_numbered(val):
         out.append((int(m.group(1)), [x.strip() for x in m.group(2).split(";")]))
     return out
 
+def split_top(val):
+    """split a printed 4-tuple (a, b, c, d) of lists at its top-level commas"""
+    val = val.strip()
+    if val.startswith("("):
+        val = val[1:-1]
+    parts, depth, cur = [], 0, ""
+    for ch in val:
+        if ch in "([":
+            depth += 1
+        elif ch in ")]":
+            depth -= 1
+        if ch == "," and depth == 0:
+            parts.append(cur); cur = ""
+        else:
+            cur += ch
+    parts.append(cur)
+    return parts
+
 model_mismatch = []
 for name, (rc, o) in sorted(res.items()):
-    vals = {nm: ck.printed_value(o, nm) for nm in ("DV", "DM", "FV", "FM")}
-    if rc != 0 or any(v is None for v in vals.values()):
+    ok_all = rc == 0
+    per_file = []
+    for local in range(len(index[name])):
+        v = ck.printed_value(o, "R%d" % local)
+        parts = split_top(v) if v is not None else []
+        if len(parts) != 4:
+            ok_all = False
+            break
+        per_file.append(parts)
+    if not ok_all:
         ck.violation("cases-eval:" + name, "cases file %s did not evaluate" % name, {"log": o[-3000:]}, no_input=True)
         continue
-    dix, fix_ix = index[name]
-    for li, kinds in parse_numbered(vals["DV"]):
-        d = diags[dix[li]]
-        what = {"VStart": "start position does not exist in the file", "VEndFile": "end lies in another file",
-                "VEndPos": "end position does not exist in the file", "VEndBeforeStart": "end precedes start"}.get(kinds[0], kinds[0])
-        ck.violation("position:%s:%s" % (d["Check"], kinds[0]),
-                     "%s (%s) in %s [%s]: %s: reported %d:%d (offset %d)%s; line is %r" % (
-                         d["Check"], d["Kind"], short(files[d["File"]]["Path"]), d["Variant"], what, d["Pos"]["Line"], d["Pos"]["Col"], d["Pos"]["Off"],
-                         (" .. %d:%d" % (d["End"]["Line"], d["End"]["Col"])) if d["HasEnd"] else "", line_of(d["File"], d["Pos"]["Line"])[:120]),
-                     {"diag": d, "file": files[d["File"]]["Path"], "source": file_text(d["File"])})
-    for li, kinds in parse_numbered(vals["FV"]):
-        f = fixes[fix_ix[li]]
-        what = {"VEditFile": "edits not in one file", "VEditPos": "an edit position does not exist in the file",
-                "VEditsOverlapOrBounds": "edits overlap or leave the file's bounds"}.get(kinds[0], kinds[0])
-        ck.violation("edits:%s:%s" % (f["Check"], kinds[0]),
-                     "%s fix %r in %s [%s]: %s: %s" % (f["Check"], f["FixMsg"], short(files[f["File"]]["Path"]), f["Variant"], what,
-                                                       [(e["Start"]["Off"], e["End"]["Off"], bytes.fromhex(e["NewHex"]).decode("utf8", "replace")[:40]) for e in f["Edits"]]),
-                     {"fix": f, "file": files[f["File"]]["Path"], "source": file_text(f["File"])})
-    for li, kinds in parse_numbered(vals["DM"]):
-        model_mismatch.append(("diag", diags[dix[li]], kinds))
-    for li, kinds in parse_numbered(vals["FM"]):
-        model_mismatch.append(("fix", fixes[fix_ix[li]], kinds))
+    for local, (DV, DM, FV, FM) in enumerate(per_file):
+        dix, fix_ix = index[name][local]
+        for li, kinds in parse_numbered(DV):
+            d = diags[dix[li]]
+            what = {"VStart": "start position does not exist in the file", "VEndFile": "end lies in another file",
+                    "VEndPos": "end position does not exist in the file", "VEndBeforeStart": "end precedes start"}.get(kinds[0], kinds[0])
+            ck.violation("position:%s:%s" % (d["Check"], kinds[0]),
+                         "%s (%s) in %s [%s]: %s: reported %d:%d (offset %d)%s; line is %r" % (
+                             d["Check"], d["Kind"], short(files[d["File"]]["Path"]), d["Variant"], what, d["Pos"]["Line"], d["Pos"]["Col"], d["Pos"]["Off"],
+                             (" .. %d:%d" % (d["End"]["Line"], d["End"]["Col"])) if d["HasEnd"] else "", line_of(d["File"], d["Pos"]["Line"])[:120]),
+                         {"diag": d, "file": files[d["File"]]["Path"], "source": file_text(d["File"])})
+        for li, kinds in parse_numbered(FV):
+            f = fixes[fix_ix[li]]
+            what = {"VEditFile": "edits not in one file", "VEditPos": "an edit position does not exist in the file",
+                    "VEditsOverlapOrBounds": "edits overlap or leave the file's bounds"}.get(kinds[0], kinds[0])
+            ck.violation("edits:%s:%s" % (f["Check"], kinds[0]),
+                         "%s fix %r in %s [%s]: %s: %s" % (f["Check"], f["FixMsg"], short(files[f["File"]]["Path"]), f["Variant"], what,
+                                                           [(e["Start"]["Off"], e["End"]["Off"], bytes.fromhex(e["NewHex"]).decode("utf8", "replace")[:40]) for e in f["Edits"]]),
+                         {"fix": f, "file": files[f["File"]]["Path"], "source": file_text(f["File"])})
+        for li, kinds in parse_numbered(DM):
+            model_mismatch.append(("diag", diags[dix[li]], kinds))
+        for li, kinds in parse_numbered(FM):
+            model_mismatch.append(("fix", fixes[fix_ix[li]], kinds))
 # harness applier rejected but the model did not flag it (or the reverse) is a mismatch too
-flagged = {id(v["replay"]) for v in ck.violations}
+for f in fixes:
+    if not f["Exempt"] and f["File"] >= 0 and f["OneFile"] and not f["Applied"] and not any(v["key"] == "edits:%s:VEditsOverlapOrBounds" % f["Check"] or v["key"] == "edits:%s:VEditPos" % f["Check"] for v in ck.violations):
+        model_mismatch.append(("fix", f, ["harness applier rejected the edits, the model accepted them"]))
 
 # ---------------------------------------------------------------- 4. toolchain oracles on every applied fix
 def errclass(msg):
@@ -257,6 +299,12 @@ def diffkind(before, after):
     if tb_ != ta:
         return "effects-differ"
     if rb != ra:
+        try:
+            x, y = float(rb), float(ra)
+            if x == x and y == y and abs(x - y) <= 1e-9 * max(abs(x), abs(y)):
+                return "float-rounding-differs"
+        except ValueError:
+            pass
         return "result-differs"
     return "output-differs"
 
@@ -303,7 +351,7 @@ ck.finish({
             "non-trivial = distinct (check, variant, file, effective change) of fixes whose application changes the file",
     "samples": samples,
     "diagnostics_position_checked": n_dcases, "fixes_model_applied": n_fcases, "fixes_parsed": n_parse, "fixes_typechecked": n_type,
-    "typecheck_skipped": n_skip, "exempt_line_directive": n_exempt, "checks_offering_fixes_seen": checks_with_fix,
+    "typecheck_skipped": n_skip, "exempt_line_directive": n_exempt, "related_positions_in_other_packages": n_related_external, "checks_offering_fixes_seen": checks_with_fix,
     "behaviour_fix_runs_equal": n_beh_equal, "behaviour_fix_runs": len(behave), "files": len(files),
     "harness_stats": stats, "notes": notes[:10],
 })
